@@ -11,7 +11,8 @@ HARNESS = ["vcr/pe/zz_verif_c12_test.go"]
 # consumer legs: the real callers of vcr/pe on the verifier side (auth/api/iam) and on the wallet side (vcr/holder)
 IAM_PKG, IAM_HARNESS = "auth/api/iam", ["auth/api/iam/zz_verif_c12_iam_test.go"]
 HOLDER_PKG, HOLDER_HARNESS = "vcr/holder", ["vcr/holder/zz_verif_c12_holder_test.go"]
-HARNESSES = [(PKG, HARNESS, "c12"), (IAM_PKG, IAM_HARNESS, "c12iam"), (HOLDER_PKG, HOLDER_HARNESS, "c12holder")]
+DISC_PKG, DISC_HARNESS = "discovery", ["discovery/zz_verif_c12_discovery_test.go"]
+HARNESSES = [(PKG, HARNESS, "c12"), (IAM_PKG, IAM_HARNESS, "c12iam"), (HOLDER_PKG, HOLDER_HARNESS, "c12holder"), (DISC_PKG, DISC_HARNESS, "c12disc")]
 
 REQUIRED = ["pe_total_match", "pe_total_build", "pe_total_validate", "pe_total_resolve_fields",
             "match_sound", "filter_sound_and_complete",
@@ -279,6 +280,9 @@ def run(ctx):
         "marshalling (map view, Raw(), json.Marshal identity, decoding of envelope values), dlclark/regexp2 results on (pattern, input), "
         "PaesslerAG/jsonpath on the generated subset ($, .key, [\"key\"], [n], trailing [*]), santhosh-tekuri/jsonschema",
         "model scope: vcr/pe presentation_definition.go, submission_requirement.go, presentation_submission.go (Build/Resolve/Validate), util.go (envelope as data)",
+        "consumers of vcr/pe (vcr/holder presenter.buildSubmission, auth/api/iam PEXConsumer.fulfill/credentialMap + resolveInputDescriptorValues + "
+        "ParsePresentationSubmission, discovery Module.Search) are NOT in the Lean model: they are tied by call-site facts and by harness legs that run "
+        "the real code on the pe leg's inputs and compare with the pe-level results (props/C12.coverage.md)",
     ]
     ctx.assumptions += [
         "credentials are identified by json.Marshal (vcEqual) / Raw(); distinct generated credentials have distinct identities",
@@ -609,13 +613,13 @@ def run(ctx):
                 cur = k
             case_of[k] = cur
 
-    def consumer_leg(pkg, files, name, test, outfile):
+    def consumer_leg(pkg, files, name, test, outfile, quick_limit=8000):
         b = ctx.go_test_binary(pkg, files, name)
         if b is None:
             ctx.oblige("harness-builds:" + name, False, ctx.harness_error[-1200:])
             return []
         ctx.oblige("harness-builds:" + name, True)
-        rc2, log2, _ = ctx.run_harness(b, test, {"VERIF_FEED": ops_p, "VERIF_LIMIT": 60000 if ctx.thorough else 12000},
+        rc2, log2, _ = ctx.run_harness(b, test, {"VERIF_FEED": ops_p, "VERIF_LIMIT": 60000 if ctx.thorough else quick_limit},
                                        outdir=out, timeout=1800, cwd=os.path.join(vlib.REPO, pkg))
         if rc2 != 0:
             ctx.oblige("harness-runs:" + name, False, log2[-1200:])
@@ -697,7 +701,7 @@ def run(ctx):
                 creport("C12:consumer:duplicate-field-not-refused", "the same field id mapped by two presentation definitions was not refused", k)
 
     # wallet side: presenter.buildSubmission, then what the verifier does with its output
-    for r in consumer_leg(HOLDER_PKG, HOLDER_HARNESS, "c12holder", "TestVerifC12Holder", "holder.out"):
+    for r in consumer_leg(HOLDER_PKG, HOLDER_HARNESS, "c12holder", "TestVerifC12Holder", "holder.out", 6000):
         if r["n"] not in ops_by_n:
             continue
         k, op = ops_by_n[r["n"]]
@@ -753,6 +757,46 @@ def run(ctx):
             if r.get("accepted") != want and len(ids) == len(sel):
                 creport("C12:presenter:accepted-mapping-differs", f"verifier accepted {r.get('accepted')}, the wallet mapped {want}", k)
 
+    # discovery client: Module.Search zips Match's results by index and resolves the constraint fields
+    for r in consumer_leg(DISC_PKG, DISC_HARNESS, "c12disc", "TestVerifC12Discovery", "discovery.out", 5000):
+        if r["n"] not in ops_by_n:
+            continue
+        k, op = ops_by_n[r["n"]]
+        line = impl[k] if k < len(impl) else ""
+        counts["discovery:" + r.get("r", "?") + (":fields" if r.get("fields") else "")] += 1
+        if r.get("r") == "panic":
+            creport("C12:consumer-panic:discovery", f"discovery Module.Search panicked: {r.get('panic','')[:80]}", k)
+            continue
+        if r.get("r") != "ok":
+            continue
+        c, _, rt = load_case(k)
+        pdx = c["def"]
+        cr = {x["name"]: x for x in c["creds"]}
+        mm = re.match(r"match ok vcs=\[(.*?)\] map=\[(.*)\]$", line)
+        if not mm:
+            if r.get("fields"):
+                creport("C12:discovery:fields-although-match-fails", f"Search reports fields {r['fields']} although Match says {line[:50]}", k)
+            continue
+        if len({d["id"] for d in pdx["descs"]}) != len(pdx["descs"]) or not r.get("fields"):
+            continue
+        names = [x for x in mm.group(1).split(",") if x]
+        ids = [x.split(":", 1)[0] for x in mm.group(2).split(",") if x]
+        cm = {i: cr[nm] for i, nm in zip(ids, names) if nm in cr}
+        try:
+            for fk, fv in r["fields"].items():
+                okv = False
+                for d in pdx["descs"]:
+                    if d["id"] in cm:
+                        for f in d.get("fields", []):
+                            if f.get("id") == fk and field_value_ok(f, cm[d["id"]]["tree"], rt, json.dumps(fv, sort_keys=True, separators=(",", ":"))):
+                                okv = True
+                if not okv:
+                    creport("C12:discovery:search-field-not-faithful",
+                            f"Search reports {fk}={json.dumps(fv)[:60]}, which is not a value of the credential mapped to that field's descriptor", k)
+            counts["discovery:fields-checked"] += 1
+        except Undecided:
+            counts["oracle-undecided"] += 1
+
     ctx.oblige("oracle:reference-matcher(impl)", oracle_bad == 0, f"{oracle_bad} disagreements with the reference matcher / panics")
 
     # ---- correspondence model vs implementation
@@ -770,6 +814,7 @@ def run(ctx):
     else:
         ctx.oblige("correspondence:model=impl", True, f"{len(impl)} lines equal")
 
+    ctx.cov["consumer_leg_evaluations"] = sum(v for k_, v in counts.items() if k_.split(":")[0] in ("iam", "holder", "discovery") and k_.count(":") == 1)
     ctx.cov["evaluations"] = len(impl)
     ctx.cov["distinct_nontrivial"] = len(distinct)
     ctx.cov["traces_validated_against_impl"] = len(impl) - len(bad)
